@@ -33,8 +33,8 @@ AXES = {
 }
 
 
-def run(an, cfg):
-    kw = lsq_inputs(K=cfg["K"], baseline=cfg["baseline"], W=cfg.get("W", "mat"), lb="nonneg", ub="finite", bs=1)
+def run(an, cfg, ub="finite", seed="int"):
+    kw = lsq_inputs(K=cfg["K"], baseline=cfg["baseline"], W=cfg.get("W", "mat"), lb="nonneg", ub=ub, bs=1)
     kw.pop("batch_size")
     kw.update(verbose=const(0), return_pred=const(True))
     kw["n_layers"] = intv("n_layers", "L")
@@ -42,7 +42,7 @@ def run(an, cfg):
     kw["equal_l1norm_constraint"] = flag("equal_l1norm_constraint", cfg["equal"])
     kw["lbp"] = num("lbp", {}, sign="NONNEG")
     kw["ubp"] = num("ubp", {}, sign="POS")
-    kw["seed"] = intv("seed")
+    kw["seed"] = intv("seed", np_scalar=(seed == "numpy integer"))
     kw["seed"].tags.pop("dim", None)
     kw["subsample"] = {None: none(), "fast": strv("subsample", "fast"), "number": num("subsample", {}, sign="POS")}[cfg["subsample"]]
     if cfg["subsample"] == "number":
@@ -55,6 +55,12 @@ def run(an, cfg):
 
 def check(rep, an, tier):
     entry = "lsq_linear_decomposition"
+    d0 = {n: AXES[n][0][0] for n in AXES}
+    F.mixed_upper_bounds(rep, run(an, d0, ub="mixed"), entry)
+    # a numpy integer (np.int64 out of np.arange / rng.integers) is a seed like any other
+    r_np = run(an, dict(d0, subsample="fast"), seed="numpy integer")
+    r_np.config += ",seed=numpy integer"
+    seeds(rep, r_np, entry, d0)
     for cfg in lsq_configs(tier, AXES):
         res = run(an, cfg)
         heap = res.heap
